@@ -101,3 +101,18 @@ package upstream
 //@   ensures calls(bootstrapNew) == 1 && ret(bootstrapNew, 0, 1) != nil ==> result_1 != nil
 //@   ensures calls(JoinHostPort) <= 1 && (calls(JoinHostPort) == 1 ==> arg(JoinHostPort, 0, 0) == ret(parseDialAddr, 0, 0) && arg(JoinHostPort, 0, 1) == itoa(ret(parseDialAddr, 0, 1)))
 //@   ensures calls(bootstrapNew) + calls(JoinHostPort) == 0 ==> result_1 != nil
+
+// The DoT dial function (C07): the TCP connection it opened is either handed to the caller (as a
+// TLS connection, after a successful handshake) or closed — a failed handshake closes it before
+// the error is returned; nothing is closed on success.
+//@ func paramfn:NewUpstream$8.tcpDialer
+//@   log tcpDial
+//@   modifies *
+//@   ensures (result_0 != nil) != (result_1 != nil)
+//@ func NewUpstream$8 [C07]
+//@   modifies *
+//@   ensures calls(tcpDial) == 1
+//@   ensures ret(tcpDial, 0, 1) != nil ==> result_1 != nil && result_0 == nil && calls(tlsClient) == 0
+//@   ensures ret(tcpDial, 0, 1) == nil ==> calls(tlsClient) == 1 && calls(tlsHandshake) == 1 && arg(tlsHandshake, 0, 0) == ret(tlsClient, 0)
+//@   ensures ret(tcpDial, 0, 1) == nil && ret(tlsHandshake, 0) != nil ==> result_1 != nil && result_0 == nil && calls(tlsClose) == 1 && arg(tlsClose, 0, 0) == ret(tlsClient, 0)
+//@   ensures ret(tcpDial, 0, 1) == nil && ret(tlsHandshake, 0) == nil ==> result_1 == nil && result_0 != nil && calls(tlsClose) == 0
